@@ -285,7 +285,9 @@ def handle (case impl : List String) : Verdict :=
               | some iv => v.withDiff (dom != "zero" && ratAbs (iv - r) > ratAbs r / 100000) s!"Newton model {ratApprox r}, impl {ratApprox iv}"
               | none => v.withDiff (dom == "positive") s!"impl not finite, model {ratApprox r}"
           else v
-        if dom == "positive" then
+        -- subnormal arguments are in the domain too (their reciprocal square root is an ordinary number around
+        -- 1e19..1e22)
+        if dom == "positive" || dom == "subnormal" then
           match toRat? ab, toRat? ib with
           | some x, some r =>
             v.withSpec (!FloatSpec.recipSqrtWithin (rsqEps be) x r) (be ++ "-recip_sqrt-error-bound") s!"r = {ratApprox r}: r²x − 1 = {ratApprox (r * r * x - 1)}"
